@@ -175,9 +175,9 @@ def norm_expr(body):
                 for stm in reversed(parts[:-1]):
                     m = re.match(r"let (\w+) = (.*)$", stm)
                     name, e = m.group(1), m.group(2)
-                    if len(re.findall(r"(?<![\w.] )\b%s\b" % re.escape(name), tail)) != 1:
+                    if len(re.findall(r"(?<!\. )(?<!:: )\b%s\b" % re.escape(name), tail)) != 1:
                         return body
-                    tail = re.sub(r"(?<![\w.] )\b%s\b" % re.escape(name), lambda _m: e, tail, count=1)
+                    tail = re.sub(r"(?<!\. )(?<!:: )\b%s\b" % re.escape(name), lambda _m: e, tail, count=1)
                 t = tail
                 changed = True
             elif len(parts) == 1:
@@ -186,7 +186,7 @@ def norm_expr(body):
         # eta-expanded conversions: `|e| Into::into(e)`, `|e| e.into()` are `Into::into`; `ctx.into()` is `Into::into(ctx)`
         t2 = re.sub(r"\| (\w+) \| (?:Into :: into|From :: from) \( \1 \)", "Into :: into", t)
         t2 = re.sub(r"\| (\w+) \| \1 \. into \( \)", "Into :: into", t2)
-        t2 = re.sub(r"(?<![\w.] )\bctx \. into \( \)", "Into :: into ( ctx )", t2)
+        t2 = re.sub(r"(?<!\. )(?<!:: )\bctx \. into \( \)", "Into :: into ( ctx )", t2)
         # `match E { Ok(a) => Ok(a), Err(b) => Err(Into::into(b)) }` is `E.map_err(Into::into)`
         mm = re.match(r"match (.*) \{ Ok \( (\w+) \) => Ok \( \2 \) , Err \( (\w+) \) => Err \( (?:Into :: into|From :: from) \( \3 \) \) ,? \}$", t2)
         if mm:
